@@ -68,6 +68,13 @@ def run(ctx):
     n = T.rule_length_step(ctx, 'R01.9')
     n += C07.sequence_rule(ctx, 'R01.9')
     ctx.floor('R01.9', n, 10)
+    import wiring
+    ctx.rule('R01.10', 'what a caller submits is what the tracker sees: the observation constructor stores box, custom id, '
+                       'feature and quality unchanged; a batch files every detection under its own scene (one entry - one '
+                       'epoch step, one result - per scene id)')
+    n = wiring.identity_ctor(ctx, 'R01.10', 'trackers::visual_sort::VisualSortObservation::new')
+    n += T.rule_batch_request(ctx, 'R01.10')
+    ctx.floor('R01.10', n, 6)
 
 
 def tracked_type(ty):
